@@ -114,10 +114,13 @@ def tilde(word):
 
 
 def make_case(g, rng, bad=False):
-    values = dict(benchmark=rng.choice(["cmdB", "run %", "b~", "B%(input)s"]), cores=rng.choice(["1", "4", "c%"]),
-                  executor=rng.choice(NAMES), input=rng.choice(VALUES), iterations=rng.choice([1, 7, 1000]),
-                  suite=rng.choice(NAMES), variable=rng.choice(VALUES), tag=rng.choice(["", "t1", "t%g"]),
+    typed = [0, 7, 2.5, True, -3]      # YAML scalars that are not strings
+    values = dict(benchmark=rng.choice(["cmdB", "run %", "b~", "B%(input)s"]), cores=rng.choice(["1", "4", "c%", 0, 8]),
+                  executor=rng.choice(NAMES), input=rng.choice(VALUES + typed), iterations=rng.choice([1, 7, 1000]),
+                  suite=rng.choice(NAMES), variable=rng.choice(VALUES + typed), tag=rng.choice(["", "t1", "t%g", 0]),
                   warmup=rng.choice([0, 3, 25]))
+    # a second run of the same suite (another variable value): per-run values must not leak between runs
+    second = rng.choice(["other", "o%", 5, "~/o"]) if rng.random() < 0.4 else None
     case = dict(
         path=rng.choice([None, "/abs/p", "~/p", "rel", "rel/sub", "/abs/é"]),
         exe=rng.choice(["exe", "./run.sh", "vm{1}", "~/bin/x"]),
@@ -131,7 +134,10 @@ def make_case(g, rng, bad=False):
         completed=rng.choice([0, 0, 1, 2, 9, 41]),
         env=rng.choice([{}, {"A": "1"}, {"P": "~/x", "Q": "a:~/b", "R": "~"}, {"HOMEISH": "~zz9/x", "S": "x y ~/z", "É": "ü%"},
                         {"K": "{v}", "L": "~/a:~/b:c", "M": "100%"}]),
+        second=second,
     )
+    case["raw_values"] = dict(values)
+    case["values"] = {k: (v if k in ("iterations", "warmup") else str(v)) for k, v in values.items()}
     return case
 
 
@@ -164,9 +170,12 @@ def raw_of(case):
              "iterations": v["iterations"], "warmup": v["warmup"], "benchmarks": [{"TheBench": details}]}
     if case["loc_pieces"] is not None:
         suite["location"] = g.render(case["loc_pieces"])
+    raw_values = case.get("raw_values", v)
     for key, name in (("cores", "cores"), ("input", "input_sizes"), ("variable", "variable_values"), ("tag", "tags")):
-        if v[key] != "":
-            suite[name] = [v[key]]
+        if raw_values[key] != "":
+            suite[name] = [raw_values[key]]
+    if case.get("second") is not None:
+        suite["variable_values"] = suite.get("variable_values", []) + [case["second"]]
     if case["env"]:
         suite["env"] = dict(case["env"])
     ex = {"executable": case["exe"]}
@@ -189,28 +198,42 @@ def fres_of_call(fn):
         return ["crash:" + type(e).__name__]
 
 
+def same_scalar(a, b):
+    return type(a) is type(b) and a == b
+
+
 def observe(case, validate=True):
+    """one (case, observation) pair per run of the configuration (the second run differs in %(variable)s)"""
     raw = raw_of(case)
-    res = {}
     try:
         cnf = impl.configurator(raw, validate=validate)
         runs = list(cnf.get_runs())
     except Exception as e:  # noqa
-        return dict(error="compile:" + type(e).__name__ + ":" + str(e)[:100])
-    if len(runs) != 1:
-        return dict(error="runs:%d" % len(runs))
-    r = runs[0]
-    r._max_invocation = case["completed"]
-    res["cmdline"] = fres_of_call(r.cmdline)
-    res["next"] = fres_of_call(r.cmdline_for_next_invocation)
-    loc = fres_of_call(lambda: r.location)
-    res["location"] = None if (loc[0] == 0 and loc[1] is None) else loc
-    if res["location"] and res["location"][0] == 0:
-        res["cwd"] = [0, os.path.expanduser(res["location"][1])]   # what executor.py does before Popen
-    else:
-        res["cwd"] = res["location"]
-    res["env"] = [[k, v] for k, v in r.env.items()]
-    return res
+        return [(case, dict(error="compile:" + type(e).__name__ + ":" + str(e)[:100]))]
+    expected_runs = 1 if case.get("second") is None else 2
+    if len(runs) != expected_runs:
+        return [(case, dict(error="runs:%d" % len(runs)))]
+    out = []
+    # ask in an order that depends on the case, so that state shared between the runs of a suite shows
+    runs.sort(key=lambda r: str(r.var_value), reverse=bool(case["completed"] % 2))
+    for r in runs:
+        c = case
+        if case.get("second") is not None and same_scalar(r.var_value, case["second"]):
+            c = dict(case)
+            c["values"] = dict(case["values"], variable=str(case["second"]))
+        res = {}
+        r._max_invocation = case["completed"]
+        res["cmdline"] = fres_of_call(r.cmdline)
+        res["next"] = fres_of_call(r.cmdline_for_next_invocation)
+        loc = fres_of_call(lambda: r.location)
+        res["location"] = None if (loc[0] == 0 and loc[1] is None) else loc
+        if res["location"] and res["location"][0] == 0:
+            res["cwd"] = [0, os.path.expanduser(res["location"][1])]   # what executor.py does before Popen
+        else:
+            res["cwd"] = res["location"]
+        res["env"] = [[k, v] for k, v in r.env.items()]
+        out.append((c, res))
+    return out
 
 
 def model_view(m):
@@ -249,19 +272,19 @@ def run(chk):
     for i in range(n_ok + n_bad):
         bad = i >= n_ok
         case = make_case(g, rng, bad=bad)
-        obs = observe(case, validate=(i % 10 == 0))   # schema validation is 25 ms; the shape is the same
-        cases.append((case, obs, bad))
         chk.count("malformed_templates" if bad else "wellformed_templates")
-        if "error" in obs:
-            chk.count("config_rejected")
-            continue
-        # ---- oracle (by construction), only for well-formed templates
-        if not bad:
-            oracle_case(chk, case, obs)
-        for key in ("cmdline", "next", "location"):
-            o = obs.get(key)
-            if o and isinstance(o[0], str):
-                chk.violation("C03 a template never ends in an unhandled exception", jcase(case), "string or user error", o)
+        for case, obs in observe(case, validate=(i % 10 == 0)):   # schema validation is 25 ms; the shape is the same
+            cases.append((case, obs, bad))
+            if "error" in obs:
+                chk.count("config_rejected")
+                continue
+            # ---- oracle (by construction), only for well-formed templates
+            if not bad:
+                oracle_case(chk, case, obs)
+            for key in ("cmdline", "next", "location"):
+                o = obs.get(key)
+                if o and isinstance(o[0], str):
+                    chk.violation("C03 a template never ends in an unhandled exception", jcase(case), "string or user error", o)
     # ---- model side
     exprs = [coq_case(c, pcwd) for c, o, b in cases if "error" not in o]
     live = [(c, o, b) for c, o, b in cases if "error" not in o]
